@@ -278,6 +278,25 @@ def sqlite_columns(tier):
             if pn in ('group_id_bytes', 'mls_group_id_bytes') and ca != pn:
                 r.fail(f'O2/{m.group(1)}/wrong-kind-of-group-id', f'snapshot_group_state calls {m.group(1)} with `{ca}` for its parameter `{pn}`: the raw group id and the MlsCodec-encoded id are '
                        'different keys, so the snapshot of that table matches no row and a rollback then empties it')
+    # statements that select / delete by group id bind the id of the table's kind: `group_id_bytes` (raw) for MDK tables and for the snapshot table,
+    # the MlsCodec-encoded id for the openmls_* tables (both are byte slices: a slip type-checks and matches no row)
+    for fn_ in ('snapshot_group_state', 'restore_group_from_snapshot'):
+        fb = re.sub(r'\s+', ' ', re.sub(r'//[^\n]*', '', S.fn_body(S.source('lib.rs'), fn_)))
+        for m in re.finditer(r'"((?:DELETE FROM|SELECT [^"]*? FROM|UPDATE) (\w+)[^"]*?)"\s*,\s*(?:rusqlite::)?params!\s*\[([^\]]*)\]', fb):
+            sql, tbl, plist = m.group(1), m.group(2), [x.strip().lstrip('&').strip() for x in S.split_top(m.group(3)) if x.strip()]
+            if tbl not in tables:
+                continue
+            gcol_ = group_col(tables, tbl)
+            conds = re.findall(r'(\w+)\s*(?:=|!=|<>|>=|<=|>|<)\s*\?', sql.split('WHERE', 1)[1]) if 'WHERE' in sql else []
+            for cname, par in zip(conds, plist):
+                if cname != gcol_:
+                    continue
+                n += 1
+                want = 'mls_group_id_bytes' if tbl.startswith('openmls_') else 'group_id_bytes'
+                other = 'group_id_bytes' if want == 'mls_group_id_bytes' else 'mls_group_id_bytes'
+                if par == other:
+                    r.fail(f'O2/{tbl}/wrong-kind-of-group-id', f'{fn_}: "{sql[:70]}" binds `{par}` to {tbl}.{cname}, the id of the other kind: the statement matches no row '
+                           '(e.g. the consumed snapshot is never deleted and stays in the store as an untracked full-state copy)')
     # what the restore writes into the live tables is what the snapshot row carries: every bound parameter is the stored row itself or a value decoded from it
     # (a key column bound to a function argument instead re-keys the restored row)
     body = re.sub(r'//[^\n]*', '', S.fn_body(S.source('lib.rs'), 'restore_group_from_snapshot'))
